@@ -175,4 +175,32 @@ example : let r0 := runG ⟨201, 256⟩ init Ghost.init (retryPre ++ [idleIn] ++
       [(4, 3, 7, true), (8, 5, 0, true)] := by
   decide +kernel
 
+/-! ## `ackSent` is needed
+
+A partner that acknowledges a header *after* the LBAD but before its retransmission (acknowledgements are
+sent in order and so precede the LBAD: a conforming partner cannot do this) and hands back the credit lets
+a fifth header overwrite the buffer that is still to be retransmitted: with `EnvStep` alone the statement
+fails.  (Replayed on the gateware: it agrees with the model on this history.) -/
+
+def lateAckPre : List In :=
+  lcIn LGOOD 5 ++ lcIn LCRD 0 ++ lcIn LCRD 1 ++ lcIn LCRD 2 ++ lcIn LCRD 3 ++
+  [idleIn, qIn ⟨4, 10, 0, 0⟩, qIn ⟨4, 11, 0, 0⟩, qIn ⟨4, 12, 0, 0⟩, qIn ⟨4, 13, 0, 0⟩] ++
+  List.replicate 30 idleIn ++ lcIn LBAD 0
+/-- `lrty_pending` holds the round back while LGOOD_6 (first unacknowledged header), a credit and a fifth
+header arrive -/
+def lateAckPost : List In :=
+  ([idleIn, idleIn] ++ lcIn LGOOD 6 ++ lcIn LCRD 0 ++ [idleIn, qIn ⟨4, 14, 0, 0⟩]).map
+    (fun i => { i with lrtyPending := true }) ++ List.replicate 40 idleIn
+
+example : let r0 := runG ⟨201, 256⟩ init Ghost.init lateAckPre
+    let s1 := (step ⟨201, 256⟩ r0.1 idleIn).1
+    let g1 := ghostStep r0.1 idleIn r0.2
+    EnvOk ⟨201, 256⟩ init Ghost.init (lateAckPre ++ [idleIn] ++ lateAckPost) ∧
+    ¬ EnvOkR ⟨201, 256⟩ init Ghost.init (lateAckPre ++ [idleIn] ++ lateAckPost) ∧
+    retryRequired r0.1 = true ∧
+    (g1.taken.drop g1.retired).map (fun h => (h.dw1, h.seq)) = [(10, 6), (11, 7), (12, 0), (13, 1)] ∧
+    (latches ⟨201, 256⟩ s1 lateAckPost).map (fun h => (h.dw1, h.seq, h.delayed)) =
+      [(14, 2, true), (11, 7, true), (12, 0, true), (13, 1, true), (14, 2, true)] := by
+  decide +kernel
+
 end LunaVerif.PacketTx
